@@ -254,6 +254,9 @@ func (r *remoteGrpcProxyCache) fetchBlobDigest(ctx context.Context, hash string)
 	if res.Status.GetCode() != int32(codes.OK) {
 		return nil, errors.New(res.Status.Message)
 	}
+	if res.BlobDigest == nil {
+		return nil, errors.New("FetchBlobResponse without a blob digest")
+	}
 	return res.BlobDigest, nil
 }
 
